@@ -61,7 +61,7 @@ func c11catch(g *eng.Graph, id string, defs ...c11ev) eng.Frag {
 func c11task(g *eng.Graph, id string) eng.Frag { return g.Task("task", id, "") }
 
 var (
-	sigA = c11ev{"signal", "ord:a"} // names are opaque strings: `ord:a` and `inv:a` (sigC) share what follows the colon and nothing else
+	sigA = c11ev{"signal", "ord:a"}  // names are opaque strings: `ord:a` and `inv:a` (sigC) share what follows the colon and nothing else
 	msgA = c11ev{"message", "ord:a"} // same name, other kind: must not match a signal definition
 	msgB = c11ev{"message", "b"}
 	sigB = c11ev{"signal", "b"}
@@ -540,12 +540,7 @@ func c11progExtra(proc *schema.Process) []string {
 // returned at the deadline is looked at again once no goroutine of the process can run any more: a caller that is
 // really parked on a full inbox is still parked then, one that was only slow (loaded machine) has returned.
 func c11deliver(in *eng.Inst, e c11ev, d time.Duration, stats map[string]int) bool {
-	var ev event.IEvent
-	if e.kind == "message" {
-		ev = event.NewMessageEvent(e.name, nil)
-	} else {
-		ev = event.NewSignalEvent(e.name)
-	}
+	ev := in.EventValue(e.kind, e.name)
 	in.Op("deliver %s %s", e.kind, e.name)
 	done := make(chan struct{})
 	var panicked atomic.Value
